@@ -40,6 +40,20 @@ Theorem C08_get_rules_verdict : forall s w errno mid rs rest, no_fault w -> next
   answers (next_seq s) errno (rscript w) mid -> rule_stream (next_seq s) rs mid rest ->
   result_of (snd (cstep s w OGetRules)) = if Z.eqb errno 0 then RRules rs else RFail (EErrno errno).
 Proof. exact get_rules_verdict. Qed.
+(* DeleteRules = list the rules, then delete each with its own request: the number of rules when the listing
+   succeeds and every delete is acknowledged with 0 ... *)
+Theorem C08_delete_rules_verdict : forall s w mid rs mid2 rest, sfaults w = [] -> next_seq s <> 0 ->
+  answers (next_seq s) 0 (rscript w) mid -> rule_stream (next_seq s) rs mid mid2 -> dels_answered (next_seq s) rs mid2 rest ->
+  result_of (snd (cstep s w ODeleteRules)) = RCount (N.of_nat (length rs)).
+Proof. exact delete_rules_verdict. Qed.
+(* ... and the first delete the kernel rejects is the verdict; the rules after it are not touched *)
+Theorem C08_delete_all_first_error : forall ok s w sent r later mid rest errno, sfaults w = [] -> dels_answered (nseq s) ok (rscript w) mid ->
+  (0 < errno < 2^31)%Z ->
+  let n := fold_left (fun a (_ : str) => (a + 1) mod 2^32) ok (nseq s) in
+  (n + 1) mod 2^32 <> 0 -> answers ((n + 1) mod 2^32) errno mid rest ->
+  exists s', delete_all s w (ok ++ r :: later) sent = (s', with_script w rest, Some (EErrno errno), sent ++ map del_wire ok ++ [del_wire r]).
+Proof. exact delete_all_first_error. Qed.
+
 (* a reply carrying another request's sequence number is never accepted as success *)
 Theorem C08_foreign_seq_rejected : forall seq q ty d ns ts rest, seq <> 0 -> q <> 0 -> q <> seq -> noise ns ->
   (length ts <= 9)%nat -> forallb transient ts = true ->
@@ -59,4 +73,6 @@ Print Assumptions C08_delete_rule_verdict.
 Print Assumptions C08_add_rule_verdict.
 Print Assumptions C08_get_status_verdict.
 Print Assumptions C08_get_rules_verdict.
+Print Assumptions C08_delete_rules_verdict.
+Print Assumptions C08_delete_all_first_error.
 Print Assumptions C08_foreign_seq_rejected.
